@@ -38,6 +38,9 @@ type QueryObs struct {
 	Arg  QArg     `json:"arg"`
 	Grpc []string `json:"grpc"` // digests of the records returned; ["ERR"] for an error
 	Leg  []string `json:"leg"`
+	// request listings only: the identifiers of the requests returned, decoded by the harness (C18)
+	Rids  [][4]int64 `json:"rids"`
+	LRids [][4]int64 `json:"lrids"`
 }
 
 type KeyDg struct {
@@ -170,10 +173,21 @@ func (c *Chain) Observe() *Observation {
 		if l == nil {
 			l = []string{}
 		}
-		o.Queries = append(o.Queries, QueryObs{Q: q, Arg: a, Grpc: g, Leg: l})
+		o.Queries = append(o.Queries, QueryObs{Q: q, Arg: a, Grpc: g, Leg: l, Rids: [][4]int64{}, LRids: [][4]int64{}})
+	}
+	// the request ids of the listing recorded last, as decoded from the answers
+	var idAnom []string
+	recIDs := func(g []*types.Request, l []types.Request) {
+		q := &o.Queries[len(o.Queries)-1]
+		for _, x := range g {
+			q.Rids = append(q.Rids, c.ridOf(x.Id, "", &idAnom))
+		}
+		for _, x := range l {
+			q.LRids = append(q.LRids, c.ridOf(x.Id, "", &idAnom))
+		}
 	}
 
-	svcs := map[string]bool{"zz": true, "s": true, "s1": true, "s-1": true}
+	svcs := map[string]bool{"zz": true, "s": true, "s1": true, "s-1": true, "S1": true}
 	for _, d := range st.Defs {
 		svcs[d.Name] = true
 	}
@@ -203,6 +217,7 @@ func (c *Chain) Observe() *Observation {
 					err := amino.UnmarshalJSON(bz, &b)
 					return []string{c.dgOf(&b)}, err
 				}))
+			var legReqs []types.Request
 			resR, err := c.K.Requests(gctx, &types.QueryRequestsRequest{ServiceName: s, Provider: c.A(p)})
 			add("requests", QArg{Svc: s, Prov: p},
 				errOr(err, func() []string {
@@ -219,8 +234,14 @@ func (c *Chain) Observe() *Observation {
 					for i := range xs {
 						r = append(r, c.dgOf(&xs[i]))
 					}
+					legReqs = xs
 					return r, err
 				}))
+			if resR != nil {
+				recIDs(resR.Requests, legReqs)
+			} else {
+				recIDs(nil, legReqs)
+			}
 		}
 		for _, ow := range owners {
 			res, err := c.K.Bindings(gctx, &types.QueryBindingsRequest{ServiceName: s, Owner: c.A(ow)})
@@ -287,6 +308,7 @@ func (c *Chain) Observe() *Observation {
 			if b < 0 {
 				continue
 			}
+			var legReqs []types.Request
 			res, err := c.K.RequestsByReqCtx(gctx, &types.QueryRequestsByReqCtxRequest{RequestContextId: idb, BatchCounter: uint64(b)})
 			add("requests_by_ctx", QArg{ID: id, Batch: b},
 				errOr(err, func() []string {
@@ -303,8 +325,14 @@ func (c *Chain) Observe() *Observation {
 					for i := range xs {
 						r = append(r, c.dgOf(&xs[i]))
 					}
+					legReqs = xs
 					return r, err
 				}))
+			if res != nil {
+				recIDs(res.Requests, legReqs)
+			} else {
+				recIDs(nil, legReqs)
+			}
 			res2, err := c.K.Responses(gctx, &types.QueryResponsesRequest{RequestContextId: idb, BatchCounter: uint64(b)})
 			add("responses", QArg{ID: id, Batch: b},
 				errOr(err, func() []string {
